@@ -46,6 +46,13 @@ func main() {
 			f = os.Args[2]
 		}
 		props.DebugFields(prog, f)
+	case "writes":
+		prog, err := core.Load(core.RepoDir(), "")
+		if err != nil {
+			fmt.Println(err)
+			os.Exit(1)
+		}
+		props.DebugWrites(prog, os.Args[2])
 	case "guards":
 		prog, err := core.Load(core.RepoDir(), "")
 		if err != nil {
